@@ -49,6 +49,9 @@ def items(tier, seed):
     for ts in ("qtilde", "q0"):
         for fl in ((False, False, False, False), (True, True, True, True), (True, False, True, False)):
             out.append(("toys", ts, fl, MODELS[0]))
+    # the same flow with concrete POI bounds (code that converts a bound with float() cannot run on a symbol)
+    for ts in ("q", "qtilde", "q0"):
+        out.append(("asymc", ts, (True, True, True, True), MODELS[0]))
     out.append(("prereq", None, None, MODELS[0]))
     out.append(("asimov", None, None, MODELS[2]))
     return out
@@ -97,6 +100,8 @@ def harness_for(item):
         init = [env.sym(f"init{i}") for i in range(cfg.npars)]
         bounds = [[env.sym(f"lo{i}"), env.sym(f"hi{i}")] for i in range(cfg.npars)]
         bounds[pi] = [0.0 if ts != "q" else env.sym("poi_lo"), env.sym("poi_hi", positive=True)]
+        if kind == "asymc":
+            bounds[pi] = [-5.0 if ts == "q" else 0.0, 10.0]
         fixed = [False] * cfg.npars
         rt, re_, rs, rc = flags
         stubs = FitStubs(env)
